@@ -155,7 +155,7 @@ def serve_standin(tier, rnd, violations):
     from liquer.cache import set_cache, NoCache, MemoryCache
     from liquer.store import set_store, MemoryStore
     register_vocabulary()
-    systematic, extra = query_space(rnd, 80 if tier == "quick" else 1500)
+    systematic, extra = query_space(rnd, 80 if tier == "quick" else 1000)
     if tier == "quick":
         # keep the argument-text part whole, thin the head x transform x extension product deterministically
         keep = [q for i, q in enumerate(systematic) if i < 5 * len(ARG_TEXTS) or i % 8 == 0]
@@ -173,7 +173,7 @@ def serve_standin(tier, rnd, violations):
         set_store(store)
         for mode in ("no cache", "memory cache, HTTP first", "memory cache, in-process first"):
             set_cache(NoCache() if mode == "no cache" else MemoryCache())
-            qs = queries + resource_queries if mode == "no cache" else [q for i, q in enumerate(queries) if i % (8 if tier == "quick" else 2) == 0]
+            qs = queries + resource_queries if mode == "no cache" else [q for i, q in enumerate(queries) if i % (8 if tier == "quick" else 3) == 0]
             for q in qs:
                 n += 1
                 nontrivial.add(q)
@@ -451,10 +451,14 @@ def store_standin(tier, rnd, violations):
     for name, make in store_factories(tier):
         ops = store_ops(STORE_KEYS if (name == "MemoryStore" or tier != "quick") else STORE_KEYS[:2])
         depth = 2 if tier == "quick" else 3
-        hists = [list(h) for d in range(0, depth + 1) for h in itertools.product(ops, repeat=d)]
-        nrand = (40 if name == "MemoryStore" else 20) if tier == "quick" else (1500 if name == "MemoryStore" else 500)
         if name == "FileStore" and tier != "quick":
             depth = 2
+        hists = [list(h) for d in range(0, min(depth, 2) + 1) for h in itertools.product(ops, repeat=d)]
+        if depth == 3:      # thorough tier: length 3 exhaustively over the calls on two keys and the directories
+            hists += [list(h) for h in itertools.product(store_ops(STORE_KEYS[:2]), repeat=3)]
+        if tier == "quick" and name == "MemoryStore":
+            hists = [h for i, h in enumerate(hists) if len(h) < 2 or i % 2 == 0]
+        nrand = (40 if name == "MemoryStore" else 15) if tier == "quick" else (800 if name == "MemoryStore" else 300)
         for _ in range(nrand):
             hists.append([rnd.choice(ops) for _i in range(rnd.randint(depth + 1, 4 if tier == "quick" else 5))])
         for h in hists:
@@ -463,8 +467,10 @@ def store_standin(tier, rnd, violations):
             run_store_history(name, make, h, violations, "store endpoint",
                               lambda A, op: http_store_op(c, op), lambda A, B, roots, uni: compare_store_reads(c, B, roots, uni))
         standins.append(dict(name="store endpoints over %s vs twin library store" % name, labelled="bounded",
-                             bound="all histories of length <= %d over %d endpoint calls + %d seeded random longer ones; every read endpoint on %d keys after each history"
-                                   % (depth, len(ops), nrand, len(STORE_KEYS) + len(STORE_DIRS)), cases=len(hists), exhaustive=False))
+                             bound="all histories of length <= %d over %d endpoint calls%s + %d seeded random longer ones; every read endpoint on %d keys after each history"
+                                   % (min(depth, 2), len(ops), " (every second pair)" if tier == "quick" and name == "MemoryStore" else
+                                      (" + all of length 3 over the 11 calls on two keys" if depth == 3 else ""), nrand,
+                                      len(STORE_KEYS) + len(STORE_DIRS)), cases=len(hists), exhaustive=False))
     return n, len(distinct), standins
 
 
@@ -505,7 +511,7 @@ def cache_standin(tier, rnd, violations):
     ops.append(("clean",))
     depth = 2
     hists = [list(h) for d in range(0, depth + 1) for h in itertools.product(ops, repeat=d)]
-    for _ in range(60 if tier == "quick" else 3000):
+    for _ in range(60 if tier == "quick" else 1500):
         hists.append([rnd.choice(ops) for _i in range(rnd.randint(3, 4 if tier == "quick" else 6))])
     if tier == "quick":
         hists = [h for i, h in enumerate(hists) if len(h) != 2 or i % 3 == 0]
@@ -808,7 +814,7 @@ def remote_standin(tier, rnd, violations):
             hists = [list(h) for d in range(0, depth + 1) for h in itertools.product(ops, repeat=d)]
             if tier == "quick" and depth == 2:
                 hists = [h for i, h in enumerate(hists) if len(h) < 2 or i % 2 == 0]
-            nrand = (30 if name == "MemoryStore" else 20) if tier == "quick" else 600
+            nrand = (30 if name == "MemoryStore" else 20) if tier == "quick" else 300
             for _ in range(nrand):
                 hists.append([rnd.choice(ops) for _i in range(rnd.randint(depth + 1, 4 if tier == "quick" else 5))])
             for h in hists:
